@@ -6,7 +6,8 @@ EXPLANATION = (
     "necessary conditions: (1) for the four arm kinds the printer anchors an arm where the parser's arm_prefix action "
     "(read from parser.lalrpop on every run) files the comments written before it, and arm_block emits them; (2) every "
     "entity printer emits the leading comments of its own entity on every exit, the render roots emit trailing comments, "
-    "each comment table has exactly one emitter, which folds over the whole list; (3) verbatim regions are copied as two "
+    "each comment table has exactly one emitter, which folds over the whole list, and the text of a comment is cut and printed "
+    "with inventoried str operations that are inverse to each other; (3) verbatim regions are copied as two "
     "adjacent slices of the source, the annotation ends at its first `]`, and directive-scoped formatters and all tool "
     "entry points keep the source text; (4) a constructor name is separated from an argument that carries comments."
 )
@@ -22,7 +23,7 @@ def run(ctx):
     R.rule_capture_anchors(ctx)
     R.rule_transparent_groups(ctx)
     R.rule_comment_text(ctx)
-    ctx.assume("of the comment capture only the anchor selection among candidate entities is analysed (capture-anchors); grouping of comment "
-               "tokens, exclusion ranges and trailing/leading classification are NOT; text the "
-               "lexer never hands to the parser is C11; attached text blocks (@[doc]/@[literal]) are not covered")
+    ctx.assume("of the comment capture the anchor selection among candidate entities (capture-anchors), the grouping of comment tokens and "
+               "the text kept per comment (comment-text) are analysed; exclusion ranges and trailing/leading classification are NOT; text "
+               "the lexer never hands to the parser is C11")
     return {}
